@@ -62,13 +62,13 @@ for pid in sorted(os.listdir(SRC)):
         os.makedirs(bdest)
         shutil.copy(f'{sd}/bad.diff', f'{bdest}/patch.diff')
         shutil.copy(f'{sd}/demo.py', bdest)
-        json.dump({'property': pid, 'summary': meta.get('summary_bad', ''), 'twin': f'benign/{pid}-{TAG}{k}',
+        json.dump({'property': pid, 'summary': meta.get('summary_bad') or meta.get('summary', ''), 'twin': f'benign/{pid}-{TAG}{k}',
                    'difference': meta.get('difference', ''), 'files': meta.get('files', []),
                    'confirmed': {'suite_with_patch': res['bad'][2], 'demo_exit_with_patch': res['bad'][1],
                                  'demo_exit_without_patch': res['clean'][1]}}, open(f'{bdest}/meta.json', 'w'), indent=1)
         os.makedirs(gdest)
         shutil.copy(f'{sd}/good.diff', f'{gdest}/patch.diff')
-        json.dump({'property': pid, 'summary': meta.get('summary_good', ''), 'twin_of': f'seeded/{pid}-{TAG}{k}',
+        json.dump({'property': pid, 'summary': meta.get('summary_good') or ('correct twin of: ' + meta.get('summary', '')), 'twin_of': f'seeded/{pid}-{TAG}{k}',
                    'difference': meta.get('difference', ''), 'files': meta.get('files', []),
                    'confirmed': {'suite_with_patch': res['good'][2], 'demo_exit_with_patch': res['good'][1]}},
                   open(f'{gdest}/meta.json', 'w'), indent=1)
